@@ -594,6 +594,10 @@ const (
 	CreateInsufficientCapacity
 	CreateNodeClassNotReady
 	CreateOther
+	// the same errors the way real providers return them: wrapped in a CreateError that carries a condition reason
+	CreateWrappedInsufficientCapacity
+	CreateWrappedNodeClassNotReady
+	CreateWrappedOther
 )
 
 func (p *Provider) Create(ctx context.Context, nc *v1.NodeClaim) (*v1.NodeClaim, error) {
@@ -604,7 +608,7 @@ func (p *Provider) Create(ctx context.Context, nc *v1.NodeClaim) (*v1.NodeClaim,
 				out = p.CreateErrors[k-1]
 			}
 		} else {
-			out = verifrt.Choice("provider.create", CreateOK, CreateOther)
+			out = verifrt.Choice("provider.create", CreateOK, CreateWrappedOther)
 		}
 	}
 	p.Log = append(p.Log, Call{"create", "Instance", nc.Name, out == CreateOK})
@@ -616,6 +620,12 @@ func (p *Provider) Create(ctx context.Context, nc *v1.NodeClaim) (*v1.NodeClaim,
 		return nil, cloudprovider.NewNodeClassNotReadyError(fmt.Errorf("nodeclass not ready"))
 	case CreateOther:
 		return nil, fmt.Errorf("injected provider create failure")
+	case CreateWrappedInsufficientCapacity:
+		return nil, cloudprovider.NewCreateError(fmt.Errorf("creating instance, %w", cloudprovider.NewInsufficientCapacityError(fmt.Errorf("no capacity"))), "InsufficientCapacity", "no capacity")
+	case CreateWrappedNodeClassNotReady:
+		return nil, cloudprovider.NewCreateError(fmt.Errorf("creating instance, %w", cloudprovider.NewNodeClassNotReadyError(fmt.Errorf("nodeclass not ready"))), "NodeClassNotReady", "nodeclass not ready")
+	case CreateWrappedOther:
+		return nil, cloudprovider.NewCreateError(fmt.Errorf("injected provider create failure"), "LaunchFailed", "injected")
 	}
 	if p.OnCreate != nil {
 		p.OnCreate(nc)
